@@ -5,6 +5,9 @@
 
 package typed
 
+// Suffix(a, b): a is what remains of b after consuming a prefix.
+//@ pred Suffix(a []byte, b []byte) := arr(a) == arr(b) && off(a) + len(a) == off(b) + len(b) && len(a) <= len(b) && off(a) + cap(a) == off(b) + cap(b)
+
 // ---------------------------------------------------------------------------
 // ReadBuffer: bounds-checked big-endian reader with a sticky error.
 // ---------------------------------------------------------------------------
@@ -16,6 +19,7 @@ package typed
 
 //@ func (r *ReadBuffer) ReadByte() (b byte, err error)
 //@   modifies r.remaining, r.err
+//@   ensures Suffix(r.remaining, old(r.remaining))
 //@   ensures old(r.err) != nil ==> b == 0 && err == old(r.err) && r.err == old(r.err) && r.remaining == old(r.remaining)
 //@   ensures old(r.err) == nil && len(old(r.remaining)) < 1 ==> b == 0 && err == ErrEOF && r.err == ErrEOF && r.remaining == old(r.remaining)
 //@   ensures old(r.err) == nil && len(old(r.remaining)) >= 1 ==> err == nil && r.err == nil && b == u8at(old(r.remaining), 0) && r.remaining == old(r.remaining)[1:]
@@ -23,6 +27,7 @@ package typed
 
 //@ func (r *ReadBuffer) ReadSingleByte() (b byte)
 //@   modifies r.remaining, r.err
+//@   ensures Suffix(r.remaining, old(r.remaining))
 //@   ensures old(r.err) != nil ==> b == 0 && r.err == old(r.err) && r.remaining == old(r.remaining)
 //@   ensures old(r.err) == nil && len(old(r.remaining)) < 1 ==> b == 0 && r.err == ErrEOF && r.remaining == old(r.remaining)
 //@   ensures old(r.err) == nil && len(old(r.remaining)) >= 1 ==> r.err == nil && b == u8at(old(r.remaining), 0) && r.remaining == old(r.remaining)[1:]
@@ -31,6 +36,7 @@ package typed
 // ReadBytes: a negative or too large count is an error, never a panic.
 //@ func (r *ReadBuffer) ReadBytes(n int) (b []byte)
 //@   modifies r.remaining, r.err
+//@   ensures Suffix(r.remaining, old(r.remaining))
 //@   ensures old(r.err) != nil ==> b == nil && r.err == old(r.err) && r.remaining == old(r.remaining)
 //@   ensures old(r.err) == nil && (n < 0 || n > len(old(r.remaining))) ==> b == nil && r.err == ErrEOF && r.remaining == old(r.remaining)
 //@   ensures old(r.err) == nil && 0 <= n && n <= len(old(r.remaining)) ==> r.err == nil && b == old(r.remaining)[:n] && r.remaining == old(r.remaining)[n:]
@@ -38,6 +44,7 @@ package typed
 
 //@ func (r *ReadBuffer) SkipBytes(n int)
 //@   modifies r.remaining, r.err
+//@   ensures Suffix(r.remaining, old(r.remaining))
 //@   ensures old(r.err) != nil ==> r.err == old(r.err) && r.remaining == old(r.remaining)
 //@   ensures old(r.err) == nil && (n < 0 || n > len(old(r.remaining))) ==> r.err == ErrEOF && r.remaining == old(r.remaining)
 //@   ensures old(r.err) == nil && 0 <= n && n <= len(old(r.remaining)) ==> r.err == nil && r.remaining == old(r.remaining)[n:]
@@ -45,6 +52,7 @@ package typed
 
 //@ func (r *ReadBuffer) ReadString(n int) (s string)
 //@   modifies r.remaining, r.err
+//@   ensures Suffix(r.remaining, old(r.remaining))
 //@   ensures old(r.err) != nil ==> s == "" && r.err == old(r.err) && r.remaining == old(r.remaining)
 //@   ensures old(r.err) == nil && (n < 0 || n > len(old(r.remaining))) ==> s == "" && r.err == ErrEOF && r.remaining == old(r.remaining)
 //@   ensures old(r.err) == nil && 0 <= n && n <= len(old(r.remaining)) ==> r.err == nil && len(s) == n && s == bytestr(old(r.remaining)[:n]) && r.remaining == old(r.remaining)[n:]
@@ -52,6 +60,7 @@ package typed
 
 //@ func (r *ReadBuffer) ReadUint16() (v uint16)
 //@   modifies r.remaining, r.err
+//@   ensures Suffix(r.remaining, old(r.remaining))
 //@   ensures old(r.err) != nil ==> v == 0 && r.err == old(r.err) && r.remaining == old(r.remaining)
 //@   ensures old(r.err) == nil && len(old(r.remaining)) < 2 ==> v == 0 && r.err == ErrEOF && r.remaining == old(r.remaining)
 //@   ensures old(r.err) == nil && len(old(r.remaining)) >= 2 ==> r.err == nil && v == be16(old(r.remaining), 0) && r.remaining == old(r.remaining)[2:]
@@ -59,6 +68,7 @@ package typed
 
 //@ func (r *ReadBuffer) ReadUint32() (v uint32)
 //@   modifies r.remaining, r.err
+//@   ensures Suffix(r.remaining, old(r.remaining))
 //@   ensures old(r.err) != nil ==> v == 0 && r.err == old(r.err) && r.remaining == old(r.remaining)
 //@   ensures old(r.err) == nil && len(old(r.remaining)) < 4 ==> v == 0 && r.err == ErrEOF && r.remaining == old(r.remaining)
 //@   ensures old(r.err) == nil && len(old(r.remaining)) >= 4 ==> r.err == nil && v == be32(old(r.remaining), 0) && r.remaining == old(r.remaining)[4:]
@@ -66,6 +76,7 @@ package typed
 
 //@ func (r *ReadBuffer) ReadUint64() (v uint64)
 //@   modifies r.remaining, r.err
+//@   ensures Suffix(r.remaining, old(r.remaining))
 //@   ensures old(r.err) != nil ==> v == 0 && r.err == old(r.err) && r.remaining == old(r.remaining)
 //@   ensures old(r.err) == nil && len(old(r.remaining)) < 8 ==> v == 0 && r.err == ErrEOF && r.remaining == old(r.remaining)
 //@   ensures old(r.err) == nil && len(old(r.remaining)) >= 8 ==> r.err == nil && v == be64(old(r.remaining), 0) && r.remaining == old(r.remaining)[8:]
@@ -73,6 +84,7 @@ package typed
 
 //@ func (r *ReadBuffer) ReadUvarint() (v uint64)
 //@   modifies r.remaining, r.err
+//@   ensures Suffix(r.remaining, old(r.remaining))
 //@   ensures old(r.err) != nil ==> r.err == old(r.err) && r.remaining == old(r.remaining)
 //@   ensures arr(r.remaining) == arr(old(r.remaining)) && len(r.remaining) <= len(old(r.remaining)) &&
 //@           off(r.remaining) + len(r.remaining) == off(old(r.remaining)) + len(old(r.remaining))
@@ -80,6 +92,7 @@ package typed
 
 //@ func (r *ReadBuffer) ReadLen8String() (s string)
 //@   modifies r.remaining, r.err
+//@   ensures Suffix(r.remaining, old(r.remaining))
 //@   ensures old(r.err) != nil ==> s == "" && r.err == old(r.err) && r.remaining == old(r.remaining)
 //@   ensures old(r.err) == nil && len(old(r.remaining)) < 1 ==> s == "" && r.err == ErrEOF
 //@   ensures old(r.err) == nil && len(old(r.remaining)) >= 1 && len(old(r.remaining)) < 1 + u8at(old(r.remaining), 0) ==> s == "" && r.err == ErrEOF
@@ -91,6 +104,7 @@ package typed
 
 //@ func (r *ReadBuffer) ReadLen16String() (s string)
 //@   modifies r.remaining, r.err
+//@   ensures Suffix(r.remaining, old(r.remaining))
 //@   ensures old(r.err) != nil ==> s == "" && r.err == old(r.err) && r.remaining == old(r.remaining)
 //@   ensures old(r.err) == nil && len(old(r.remaining)) < 2 ==> s == "" && r.err == ErrEOF
 //@   ensures old(r.err) == nil && len(old(r.remaining)) >= 2 && len(old(r.remaining)) < 2 + be16(old(r.remaining), 0) ==> s == "" && r.err == ErrEOF
@@ -143,6 +157,7 @@ package typed
 //@ func (w *WriteBuffer) reserve(n int) (b []byte)
 //@   requires n >= 0
 //@   modifies w.remaining, w.err
+//@   ensures Suffix(w.remaining, old(w.remaining))
 //@   ensures old(w.err) != nil ==> b == nil && w.err == old(w.err) && w.remaining == old(w.remaining)
 //@   ensures old(w.err) == nil && n > len(old(w.remaining)) ==> b == nil && w.err == ErrBufferFull && w.remaining == old(w.remaining)
 //@   ensures old(w.err) == nil && n <= len(old(w.remaining)) ==> w.err == nil && b == old(w.remaining)[:n] && w.remaining == old(w.remaining)[n:]
@@ -150,6 +165,7 @@ package typed
 
 //@ func (w *WriteBuffer) WriteSingleByte(n byte)
 //@   modifies w.remaining, w.err, elems(w.remaining)
+//@   ensures Suffix(w.remaining, old(w.remaining))
 //@   ensures old(w.err) != nil ==> w.err == old(w.err) && w.remaining == old(w.remaining)
 //@   ensures old(w.err) == nil && len(old(w.remaining)) == 0 ==> w.err == ErrBufferFull && w.remaining == old(w.remaining)
 //@   ensures old(w.err) == nil && len(old(w.remaining)) > 0 ==> w.err == nil && w.remaining == old(w.remaining)[1:] && u8at(old(w.remaining), 0) == n
@@ -157,6 +173,7 @@ package typed
 
 //@ func (w *WriteBuffer) WriteBytes(in []byte)
 //@   modifies w.remaining, w.err, elems(w.remaining)
+//@   ensures Suffix(w.remaining, old(w.remaining))
 //@   ensures old(w.err) != nil ==> w.err == old(w.err) && w.remaining == old(w.remaining)
 //@   ensures old(w.err) == nil && len(in) > len(old(w.remaining)) ==> w.err == ErrBufferFull && w.remaining == old(w.remaining)
 //@   ensures old(w.err) == nil && len(in) <= len(old(w.remaining)) ==> w.err == nil && w.remaining == old(w.remaining)[len(in):]
@@ -166,6 +183,7 @@ package typed
 
 //@ func (w *WriteBuffer) WriteUint16(n uint16)
 //@   modifies w.remaining, w.err, elems(w.remaining)
+//@   ensures Suffix(w.remaining, old(w.remaining))
 //@   ensures old(w.err) != nil ==> w.err == old(w.err) && w.remaining == old(w.remaining)
 //@   ensures old(w.err) == nil && 2 > len(old(w.remaining)) ==> w.err == ErrBufferFull && w.remaining == old(w.remaining)
 //@   ensures old(w.err) == nil && 2 <= len(old(w.remaining)) ==> w.err == nil && w.remaining == old(w.remaining)[2:] && be16(old(w.remaining), 0) == n
@@ -173,6 +191,7 @@ package typed
 
 //@ func (w *WriteBuffer) WriteUint32(n uint32)
 //@   modifies w.remaining, w.err, elems(w.remaining)
+//@   ensures Suffix(w.remaining, old(w.remaining))
 //@   ensures old(w.err) != nil ==> w.err == old(w.err) && w.remaining == old(w.remaining)
 //@   ensures old(w.err) == nil && 4 > len(old(w.remaining)) ==> w.err == ErrBufferFull && w.remaining == old(w.remaining)
 //@   ensures old(w.err) == nil && 4 <= len(old(w.remaining)) ==> w.err == nil && w.remaining == old(w.remaining)[4:] && be32(old(w.remaining), 0) == n
@@ -180,6 +199,7 @@ package typed
 
 //@ func (w *WriteBuffer) WriteUint64(n uint64)
 //@   modifies w.remaining, w.err, elems(w.remaining)
+//@   ensures Suffix(w.remaining, old(w.remaining))
 //@   ensures old(w.err) != nil ==> w.err == old(w.err) && w.remaining == old(w.remaining)
 //@   ensures old(w.err) == nil && 8 > len(old(w.remaining)) ==> w.err == ErrBufferFull && w.remaining == old(w.remaining)
 //@   ensures old(w.err) == nil && 8 <= len(old(w.remaining)) ==> w.err == nil && w.remaining == old(w.remaining)[8:] && be64(old(w.remaining), 0) == n
@@ -187,6 +207,7 @@ package typed
 
 //@ func (w *WriteBuffer) WriteString(s string)
 //@   modifies w.remaining, w.err, elems(w.remaining)
+//@   ensures Suffix(w.remaining, old(w.remaining))
 //@   ensures old(w.err) != nil ==> w.err == old(w.err) && w.remaining == old(w.remaining)
 //@   ensures old(w.err) == nil && len(s) > len(old(w.remaining)) ==> w.err == ErrBufferFull && w.remaining == old(w.remaining)
 //@   ensures old(w.err) == nil && len(s) <= len(old(w.remaining)) ==> w.err == nil && w.remaining == old(w.remaining)[len(s):]
@@ -196,6 +217,7 @@ package typed
 // Over-long strings are rejected (sticky error), never silently truncated.
 //@ func (w *WriteBuffer) WriteLen8String(s string)
 //@   modifies w.remaining, w.err, elems(w.remaining)
+//@   ensures Suffix(w.remaining, old(w.remaining))
 //@   ensures old(w.err) != nil ==> w.err == old(w.err) && w.remaining == old(w.remaining)
 //@   ensures len(s) > 255 ==> w.err != nil
 //@   ensures old(w.err) == nil && len(s) <= 255 && 1 + len(s) <= len(old(w.remaining)) ==>
@@ -207,6 +229,7 @@ package typed
 
 //@ func (w *WriteBuffer) WriteLen16String(s string)
 //@   modifies w.remaining, w.err, elems(w.remaining)
+//@   ensures Suffix(w.remaining, old(w.remaining))
 //@   ensures old(w.err) != nil ==> w.err == old(w.err) && w.remaining == old(w.remaining)
 //@   ensures len(s) > 65535 ==> w.err != nil
 //@   ensures old(w.err) == nil && len(s) <= 65535 && 2 + len(s) <= len(old(w.remaining)) ==>
@@ -218,6 +241,7 @@ package typed
 
 //@ func (w *WriteBuffer) DeferByte() (ref ByteRef)
 //@   modifies w.remaining, w.err, elems(w.remaining)
+//@   ensures Suffix(w.remaining, old(w.remaining))
 //@   ensures len(old(w.remaining)) == 0 ==> ref == nil && w.remaining == old(w.remaining) && (old(w.err) == nil ==> w.err == ErrBufferFull) && (old(w.err) != nil ==> w.err == old(w.err))
 //@   ensures len(old(w.remaining)) > 0 ==> w.err == old(w.err) && w.remaining == old(w.remaining)[1:] && ref == old(w.remaining) && u8at(ref, 0) == 0
 //@   property C01 C02
@@ -225,6 +249,7 @@ package typed
 //@ func (w *WriteBuffer) deferred(n int) (bs []byte)
 //@   requires n >= 0
 //@   modifies w.remaining, w.err, elems(w.remaining)
+//@   ensures Suffix(w.remaining, old(w.remaining))
 //@   ensures old(w.err) != nil ==> bs == nil && w.err == old(w.err) && w.remaining == old(w.remaining)
 //@   ensures old(w.err) == nil && n > len(old(w.remaining)) ==> bs == nil && w.err == ErrBufferFull && w.remaining == old(w.remaining)
 //@   ensures old(w.err) == nil && n <= len(old(w.remaining)) ==> w.err == nil && bs == old(w.remaining)[:n] && w.remaining == old(w.remaining)[n:]
@@ -232,6 +257,7 @@ package typed
 
 //@ func (w *WriteBuffer) DeferUint16() (ref Uint16Ref)
 //@   modifies w.remaining, w.err, elems(w.remaining)
+//@   ensures Suffix(w.remaining, old(w.remaining))
 //@   ensures old(w.err) != nil ==> ref == nil && w.err == old(w.err) && w.remaining == old(w.remaining)
 //@   ensures old(w.err) == nil && 2 > len(old(w.remaining)) ==> ref == nil && w.err == ErrBufferFull && w.remaining == old(w.remaining)
 //@   ensures old(w.err) == nil && 2 <= len(old(w.remaining)) ==> w.err == nil && ref == old(w.remaining)[:2] && w.remaining == old(w.remaining)[2:]
@@ -240,6 +266,7 @@ package typed
 //@ func (w *WriteBuffer) DeferBytes(n int) (ref BytesRef)
 //@   requires n >= 0
 //@   modifies w.remaining, w.err, elems(w.remaining)
+//@   ensures Suffix(w.remaining, old(w.remaining))
 //@   ensures old(w.err) != nil ==> ref == nil && w.err == old(w.err) && w.remaining == old(w.remaining)
 //@   ensures old(w.err) == nil && n > len(old(w.remaining)) ==> ref == nil && w.err == ErrBufferFull && w.remaining == old(w.remaining)
 //@   ensures old(w.err) == nil && n <= len(old(w.remaining)) ==> w.err == nil && ref == old(w.remaining)[:n] && w.remaining == old(w.remaining)[n:]
